@@ -105,24 +105,24 @@ package electreIII
 // ---- distillation helpers and the final ranking (C01, C05, C06)
 
 //@ func Max
-//@   property C05
+//@   property C05 C06 C20
 //@   panics_iff [empty] len(*values) == 0
 //@   ensures [maximum] (forall k int :: 0 <= k && k < len(*values) ==> (*values)[k] <= result) && (exists k int :: 0 <= k && k < len(*values) && (*values)[k] == result)
 //@   loop 1 invariant [partial] (forall k int :: 0 <= k && k < iter ==> (*values)[k] <= best) && (exists k int :: 0 <= k && k < len(*values) && (*values)[k] == best) && len(*values) > 0
 
 //@ func minusValuesFrom
-//@   property C05
+//@   property C05 C06 C20
 //@   assigns *values
 //@   ensures [mirrored] *values == old(*values) && forall k int :: 0 <= k && k < len(*values) ==> (*values)[k] == value - old((*values)[k])
 //@   loop 1 invariant [done] *values == old(*values) && forall k int :: 0 <= k && k < len(*values) ==> (*values)[k] == (k < iter ? value - old((*values)[k]) : old((*values)[k]))
 
 //@ func samePositions
-//@   property C05
+//@   property C05 C06 C20
 //@   ensures [constant] fresh(result) && fresh(*result) && len(*result) == size && forall k int :: 0 <= k && k < size ==> (*result)[k] == value
 //@   loop 1 invariant [filled] fresh(pos) && len(pos) == size && forall k int :: 0 <= k && k < iter ==> pos[k] == value
 
 //@ func calcQuality
-//@   property C05 C06
+//@   property C05 C06 C20
 //@   ensures [strength_minus_weakness] fresh(result) && fresh(*result) && len(*result) == len(*strength) && forall k int :: 0 <= k && k < len(*strength) ==> (*result)[k] == (*strength)[k] - (*weakness)[k]
 //@   loop 1 invariant [filled] fresh(quality) && len(quality) == len(*strength) && forall k int :: 0 <= k && k < iter ==> quality[k] == (*strength)[k] - (*weakness)[k]
 
@@ -197,12 +197,12 @@ package electreIII
 //@   requires [nonneg_distillation] distillationFun != nil && nonnegOnUnit(*distillationFun)
 
 //@ func ElectreIII
-//@   property C20 C05 C01
+//@   property C20 C05 C01 C06
 //@   requires [nonneg_distillation] distillationFun != nil && nonnegOnUnit(*distillationFun)
 //@   ensures [ranking] result != nil
 
 //@ func (*ElectreIIIPreferenceFunc).Evaluate
-//@   property C20 C05
+//@   property C20 C05 C06
 //@   requires [valid_parameters] typeis(dmp.MethodParameters, electreIIIParams) && dmp.MethodParameters.(electreIIIParams).DistillationFun != nil
 //@             && nonnegOnUnit(*dmp.MethodParameters.(electreIIIParams).DistillationFun)
 //@   ensures [ranking] result != nil
@@ -221,39 +221,70 @@ package electreIII
 //@ spec lin(f utils.LinearFunctionParameters, x real) real = (f.A == 0.0 && f.B == 0.0) ? 0.0 : f.A * x + f.B
 
 //@ func (*Matrix).At
-//@   property C05
+//@   property C05 C06
 //@   panics_iff [out_of_range] row * m.Size + col < 0 || row * m.Size + col >= len(m.Data)
 //@   ensures [row_major] result == m.Data[row * m.Size + col]
 
 // the cut level below the maximal credibility: the largest value strictly below maxCred - s(maxCred)
 //@ func getDistillateMatrix$1
-//@   property C05
+//@   property C05 C06 C20
 //@   nopanic
 //@   ensures [next_level_below_the_threshold] result <==> (new < minCredThreshold && new > old)
 // a credibility qualifies iff it is above the cut level and exceeds the reverse credibility by more than s(its own value)
 //@ func getDistillateMatrix$2
-//@   property C05
+//@   property C05 C06 C20
 //@   requires 0 <= col * matrix.Size + row && col * matrix.Size + row < len(matrix.Data)
 //@   ensures [qualifies] result <==> (v > minCred && v > matrix.Data[col * matrix.Size + row] + lin(*distillationFun, v))
 
 //@ func calcCoords
-//@   property C05
-//@   requires size > 0 && index >= 0
-//@   ensures [row_major] result0 * size + result1 == index && 0 <= result1 && result1 < size
+//@   property C05 C06
+//@   ensures [row_major] size > 0 && index >= 0 ==> result0 * size + result1 == index && 0 <= result1 && result1 < size
 
 //@ func (*Matrix).Filter
-//@   property C05
+//@   property C05 C06
 //@   fnparam filter pure
-//@   requires [square] m.Size > 0 && len(m.Data) == m.Size * m.Size
-//@   ensures [kept_or_zero] fresh(result) && result.Size == m.Size && len(result.Data) == len(m.Data) && fresh(result.Data)
-//@             && forall i int :: 0 <= i && i < len(m.Data) ==> (result.Data[i] == m.Data[i] || result.Data[i] == 0.0)
+//@   ensures [kept_or_zero] fresh(result) && result.Size == m.Size && len(result.Data) == m.Size * m.Size && fresh(result.Data)
+//@             && forall i int :: 0 <= i && i < len(m.Data) && i < len(result.Data) ==> (result.Data[i] == m.Data[i] || result.Data[i] == 0.0)
 //@   ensures [input_untouched] unchanged(m.Data)
 //@   loop 1 invariant [ctx] fresh(newVals) && len(newVals) == m.Size * m.Size && unchanged(m.Data)
-//@   loop 1 invariant [kept_or_zero] forall i int :: 0 <= i && i < iter ==> (newVals[i] == m.Data[i] || newVals[i] == 0.0)
+//@   loop 1 invariant [kept_or_zero] forall i int :: 0 <= i && i < iter && i < len(newVals) ==> (newVals[i] == m.Data[i] || newVals[i] == 0.0)
 
+// FindBest scans with "replace when isBetter(best, v)": if isBetter behaves like a strict weak order (irreflexive, and
+// whatever is not better than x is not better than something better than x), no entry is better than the result
 //@ func (*Matrix).FindBest
-//@   property C05
+//@   property C05 C06
 //@   fnparam isBetter pure
 //@   panics_iff [empty] m.Size == 0 || len(m.Data) == 0
 //@   ensures [an_entry] exists k int :: 0 <= k && k < len(m.Data) && result == m.Data[k]
+//@   ensures [no_entry_is_better] ((forall x real :: !apply(isBetter, x, x)) && (forall x real, y real, z real :: apply(isBetter, x, y) && !apply(isBetter, x, z) ==> !apply(isBetter, y, z)))
+//@             ==> forall k int :: 0 <= k && k < len(m.Data) ==> !apply(isBetter, result, m.Data[k])
 //@   loop 1 invariant [an_entry] exists k int :: 0 <= k && k < len(m.Data) && best == m.Data[k]
+//@   loop 1 invariant [no_entry_so_far_is_better] ((forall x real :: !apply(isBetter, x, x)) && (forall x real, y real, z real :: apply(isBetter, x, y) && !apply(isBetter, x, z) ==> !apply(isBetter, y, z)))
+//@             ==> forall k int :: 0 <= k && k < iter ==> !apply(isBetter, best, m.Data[k])
+
+//@ pred isMax(v real, m Matrix) = (forall k int :: 0 <= k && k < len(m.Data) ==> m.Data[k] <= v) && exists k int :: 0 <= k && k < len(m.Data) && m.Data[k] == v
+//@ pred isMin(v real, m Matrix) = (forall k int :: 0 <= k && k < len(m.Data) ==> m.Data[k] >= v) && exists k int :: 0 <= k && k < len(m.Data) && m.Data[k] == v
+//@ func (*Matrix).Max$1
+//@   property C05 C06
+//@   nopanic
+//@   ensures [greater] result <==> new > old
+//@ func (*Matrix).Min$1
+//@   property C05 C06
+//@   nopanic
+//@   ensures [lower] result <==> new < old
+//@ func (*Matrix).Max
+//@   property C05 C06
+//@   ensures [largest_entry] isMax(result, *m)
+//@ func (*Matrix).Min
+//@   property C05 C06
+//@   ensures [smallest_entry] isMin(result, *m)
+
+// every (outer) distillation starts from the largest credibility of the matrix it works on; an inner one from the cut level
+//@ func distillate
+//@   property C05 C06
+//@   requires [starts_at_the_largest_credibility] !isInner ==> isMax(maxCred, *matrix)
+//@   ensures [positions] result != nil
+//@ func rank
+//@   property C05 C06
+//@   ensures [positions] result != nil
+//@   loop 1 invariant [ctx] fresh(indices)
